@@ -21,6 +21,7 @@ def body(r):
     worlds = [swarm.build_world(r.seed, 70000 + i, "ins", ["ins"], rr, p_fault=0.3, max_cycles=2) for i in range(n)]
     swarm.run_swarm(r, PROP, worlds, oracles=ORACLES)
     return r.finish(
+        minimise=swarm.make_minimiser(PROP, (), ORACLES),
         rule=("seeded swarm of importance-sampler runs with min_samples close to nlive, large min_remove, small "
               "max_samples, entropy and quantile methods, include_likelihood; at every iteration (incl. after "
               "resume) the wrapper on determine_log_likelihood_threshold checks: threshold is a live sample's logL; "
